@@ -40,3 +40,23 @@ Theorem C09_fnmatch_escape_literal : forall f isb s,
        flat_map lit_ch0 s ++ S_ ")$").
 Proof. exact fnmatch_escape_literal. Qed.
 Print Assumptions C09_fnmatch_escape_literal.
+
+(* parser side, path mode (PATHNAME, Unix rules, NODOTDIR/REALPATH/MATCHBASE off; EXTMATCH, GLOBSTAR, DOTMATCH, case flags
+   free): for EVERY non-empty string s the regex produced for escape(s) is the printed form of a regex r that - under
+   the formal semantics C02Path.X - accepts s itself, accepts exactly the names C09Path.DL describes (the same characters,
+   each run of separators of s matched by a non-empty run, any separators at the end), hence only names with the same
+   list of segments as s *)
+From WC.Proofs Require C02Path C09Path.
+Theorem C09_path_escape_literal : forall flags isb s,
+  s <> [] ->
+  has flags Mwcparse.PATHNAME = true -> is_unix_style linux flags = true -> has flags Mwcparse.NODOTDIR = false ->
+  has flags Mwcparse.REALPATH = false -> has flags Mwcparse.u_NOABSOLUTE = false ->
+  has flags Mwcparse.u_ANCHOR = false -> has flags Mwcparse.MATCHBASE = false -> has flags Mwcparse.u_EXTMATCHBASE = false ->
+  has flags Mwcparse.u_TRANSLATE = false ->
+  exists r,
+    wcparse linux flags isb (escape isb s) =
+      inl (S_ "^(?s" ++ (if get_case linux flags then [] else S_ "i") ++ S_ ":" ++ C02Path.xprint r ++ S_ ")$") /\
+    C02Path.X r s [] /\ (forall n, C02Path.X r n [] <-> C09Path.DL false s n) /\
+    (forall n, C02Path.X r n [] -> C09Path.segs n = C09Path.segs s).
+Proof. exact C09Path.C09_path_escape_literal. Qed.
+Print Assumptions C09_path_escape_literal.
